@@ -29,7 +29,7 @@ def op_token(op):
         return "w:" + hx(a if isinstance(a, bytes) else a.encode("utf-8"))
     if k == "W":
         return "W:" + ",".join(hx(d) for d in a)
-    return k
+    return k   # t f c n i, and x (= leaving a with block)
 
 
 def canon_bytes(v):
